@@ -42,7 +42,9 @@ pub fn check_range_text(text: &str, expected: &Content, report: &mut Report) {
     match catch(|| text.parse::<HandRange>()) {
         Ok(Ok(r)) => {
             let got = read_range(&r);
-            if !same_content(expected, &got) {
+            if let Some(d) = super::rangegen::duplicate_physical_combo(&r) {
+                report.violate(sig("range-holds-combo-twice"), format!("'{}' parses to a range that holds one combo under two keys: {}", clip(text), d), case());
+            } else if !same_content(expected, &got) {
                 report.violate(sig("range-meaning"), format!("'{}' parses to {} combos, its meaning has {}: {}", clip(text), got.len(), expected.len(), first_difference(expected, &got)), case());
             }
         }
@@ -243,6 +245,22 @@ pub fn run(ctx: &Ctx) -> Report {
                         report.note_distinct(hash_str(&text));
                         report.count("token_texts", 1);
                     }
+                    // a single rank pair spelled kicker first ("KAs", "2Ko") denotes the same hands
+                    if let Tok::Suited(x, y) | Tok::Offsuit(x, y) = tok {
+                        let kind = if matches!(tok, Tok::Suited(..)) { 's' } else { 'o' };
+                        for form in ["", ":0.5", ":0"] {
+                            let text = format!("{}{}{}{}", crate::conv::RANK_CHARS[*y as usize], crate::conv::RANK_CHARS[*x as usize], kind, form);
+                            let w = weight_of(form);
+                            let expected: Content = tok.combos().into_iter().map(|p| (p, w)).collect();
+                            check_token_text(&text, &expected, report);
+                            check_range_text(&text, &expected, report);
+                            // and after / before the usual spelling in one list
+                            let both = format!("{}:0.25,{}", tok.text(), text);
+                            check_range_text(&both, &expected, report);
+                            report.note_distinct(hash_str(&text));
+                            report.count("reversed_rank_pair_texts", 1);
+                        }
+                    }
                     let t = tok.text();
                     if matches!(t.as_str(), "AA+" | "22+" | "32s+" | "32o+" | "AKs+" | "AKo+" | "A2s+" | "A2o+" | "AA-22" | "AKs-A2s" | "43s-42s" | "33-22") {
                         report.count("boundary_tokens_hit", 1);
@@ -325,7 +343,7 @@ pub fn run(ctx: &Ctx) -> Report {
     report.set("well_formed_tokens_all_covered", Json::Int(tokens.len() as i128));
     report.exhaustive = Some(true);
     report.rule = "one execution = parse::<HandRange>() (and for single tokens parse::<HandRangeToken>() + into_iter()) of a well-formed text compared combo by combo and bit by bit with the notation's standard meaning R2; every one of the 3,640 well-formed tokens with fixed, corner and random weight literals in [0,1] (exhaustive over tokens), seeded lists of 1..16 tokens with forced overlaps and spaces sprinkled anywhere, the empty and blank strings; distinct = distinct texts".into();
-    report.assumptions.push("well formed = high card first, spans strictly descending, two different cards (3,640 tokens); degenerate spans (88-88, AKs-AKs) and reversed rank pairs (KAs) are left out because the statement does not say what they denote; weight literals above 1 belong to C10".into());
+    report.assumptions.push("well formed = the property's 3,796 tokens: pockets, suited/offsuit rank pairs in either rank order (KAs = AKs), '+' tokens and spans written from the high end, ordered card pairs of two different cards; degenerate spans (88-88, AKs-AKs) and reversed '+'/span tokens are left out because the statement does not say what they denote; weight literals above 1 belong to C10".into());
     report.assumptions.push("the expected weight is Rust's correctly rounded f32 of the literal".into());
     for t in ["QQ+", "A9s+:0.5", "88-66", "AQs-A9s:0.25", "72o", "KsAs"] {
         let r = catch(|| t.parse::<HandRange>());
